@@ -5,8 +5,12 @@ V = os.path.dirname(os.path.dirname(os.path.abspath(__file__)))
 props = [json.loads(l) for l in open(os.path.join(V, "properties.jsonl"))]
 checks, na = [], []
 NA_REASONS = json.load(open(os.path.join(V, "tools", "not_applicable.json"))) if os.path.exists(os.path.join(V, "tools", "not_applicable.json")) else {}
+READY = set(json.load(open(os.path.join(V, "tools", "ready.json"))))
 for p in props:
     pid = p["id"]
+    if pid not in READY:
+        na.append({"property_id": pid, "reason": NA_REASONS.get(pid, "not claimed yet: its harness has not been run end-to-end against /repo's main branch in this tree (fix commits still being integrated)")})
+        continue
     cfgp = os.path.join(V, "harness", pid.lower(), "config.json")
     if not os.path.exists(cfgp) or json.load(open(cfgp)).get("disabled"):
         na.append({"property_id": pid, "reason": NA_REASONS.get(pid, "no check registered yet: the harness for this property has not been built and run end-to-end in this tree")})
